@@ -439,15 +439,26 @@ func (w *cbWorld) replayModel() modelResult {
 				tol := lhs / 1_000_000_000
 				if el == D {
 					res.edgeBoundary++
-					// exactly at the end of the recovery period both the ramp and standby are acceptable
+					// exactly at the end of the recovery period both readings are acceptable (the period is over: standby;
+					// or this is its last instant: the ramp, now at 0.5) - adopt the one the implementation took
+					if int(e.cmpSeq) < len(w.obs) && (w.obs[e.cmpSeq] == stStandby || w.obs[e.cmpSeq] == stRecovering) {
+						state = w.obs[e.cmpSeq]
+					}
+					// a breaker that itself says "still recovering" is bound by the ramp at this instant like at any other
+					if state == stRecovering && diff > tol {
+						if passed && lhs > rhs {
+							add("ramp-pass", "request %d passed at the last instant of a %v recovery (the breaker still reports recovering) with %d passed of %d decided so far: (P+1)/(N+1)=%d/%d is not below 0.5",
+								q.id, D, P, N, P+1, N+1)
+						}
+						if !passed && lhs < rhs {
+							add("ramp-refuse", "request %d refused at the last instant of a %v recovery (the breaker still reports recovering) with %d passed of %d decided so far: passing it would keep (P+1)/(N+1)=%d/%d below 0.5",
+								q.id, D, P, N, P+1, N+1)
+						}
+					}
 					if passed {
 						P++
 					}
 					N++
-					// adopt whichever reading the implementation took
-					if int(e.cmpSeq) < len(w.obs) && (w.obs[e.cmpSeq] == stStandby || w.obs[e.cmpSeq] == stRecovering) {
-						state = w.obs[e.cmpSeq]
-					}
 					if state == stStandby && !passed {
 						add("recovery-exit", "request %d decided exactly at the end of the recovery period: breaker went to standby but refused it", q.id)
 					}
